@@ -39,6 +39,9 @@ type Scenario struct {
 
 var scenarios []*Scenario
 
+// scale widens workload bounds in the thorough tier (1 = quick).
+var scale = 1
+
 func register(s *Scenario) { scenarios = append(scenarios, s) }
 
 // RunCtx collects what a run did (evidence) and carries per-run switches.
@@ -289,6 +292,7 @@ type replayFile struct {
 	Seed      uint64                 `json:"seed"`
 	Run       int                    `json:"run"`
 	RaceBuild bool                   `json:"race_build"`
+	Scale     int                    `json:"workload_scale"`
 	Tape      []uint32               `json:"tape"`
 	TapeLen0  int                    `json:"tape_len_before_minimisation"`
 	Reruns    int                    `json:"minimisation_reruns"`
@@ -481,9 +485,13 @@ func main() {
 	raceLog := flag.String("racelog", "", "prefix of GORACE log_path (race build)")
 	stride := flag.Int("stride", 1, "run indices from, from+stride, ...")
 	knownPath := flag.String("known", "", "known findings (JSON list): matching violations are counted, not reported")
+	tier := flag.String("tier", "quick", "quick or thorough: thorough widens the size bounds of the generated workloads")
 	sigOnly := flag.Bool("sigonly", false, "with -replay: print only the signature line (used by the driver to minimise race-lane tapes across processes)")
 	flag.Parse()
 	activeProp = *prop
+	if *tier == "thorough" {
+		scale = 3
+	}
 	loadSites(*sitesPath)
 	sort.Slice(scenarios, func(i, j int) bool { return scenarios[i].Name < scenarios[j].Name })
 
@@ -565,7 +573,7 @@ func main() {
 		vo := violationOut{Violation: *v, Scenario: s.Name, Run: run}
 		if !seenSig[v.Oracle] || len(wo.Violations) < 3 {
 			seenSig[v.Oracle] = true
-			rf := &replayFile{Property: v.Property, Scenario: s.Name, Oracle: v.Oracle, Msg: v.Msg, Seed: *seed, Run: run, RaceBuild: simrt.RaceBuild}
+			rf := &replayFile{Property: v.Property, Scenario: s.Name, Oracle: v.Oracle, Msg: v.Msg, Seed: *seed, Run: run, RaceBuild: simrt.RaceBuild, Scale: scale}
 			tape := t.Recorded()
 			rf.TapeLen0 = len(tape)
 			if strings.HasSuffix(v.Oracle, "/race") {
@@ -657,7 +665,7 @@ func hangMonitor(seed uint64, replayDir, outPath string, wo *workerOut) {
 		buf = buf[:runtime.Stack(buf, true)]
 		scen, _ := curScenario.Load().(string)
 		t, _ := curTape.Load().(*simrt.Tape)
-		rf := &replayFile{Property: activeProp, Scenario: scen, Oracle: scen + "/hang", Seed: seed, Run: int(r), RaceBuild: simrt.RaceBuild,
+		rf := &replayFile{Property: activeProp, Scenario: scen, Oracle: scen + "/hang", Seed: seed, Run: int(r), RaceBuild: simrt.RaceBuild, Scale: scale,
 			Msg: fmt.Sprintf("a simulated goroutine has not reached its next scheduling point for 60 s of wall time (step %d, %d goroutines): non-terminating loop in the code under test, or blocked in a primitive outside the simulator\n%s", st, gs, trimStack(string(buf)))}
 		if t != nil {
 			rf.Tape = t.Recorded()
@@ -723,6 +731,9 @@ func replaySignature(path string) int {
 		return 2
 	}
 	activeProp = rf.Property
+	if rf.Scale > 0 {
+		scale = rf.Scale
+	}
 	v, _, _ := execute(s, simrt.ReplayTape(rf.Tape), newAgg(), false)
 	if v == nil {
 		fmt.Println("SIG none")
@@ -754,6 +765,9 @@ func doReplay(path, raceLog string) int {
 	}
 	agg := newAgg()
 	activeProp = rf.Property
+	if rf.Scale > 0 {
+		scale = rf.Scale
+	}
 	v, rc, h := execute(s, simrt.ReplayTape(rf.Tape), agg, true)
 	for _, l := range formatTrace(rc) {
 		fmt.Println(l)
